@@ -611,6 +611,7 @@ def handle (j : Json) : R Json := do
     | some xs => return Json.arr (xs.map Json.str).toArray
     | none => return Json.null
   | "stripquotes" => return Json.str (stripQuotes (← str j "s"))
+  | "removequotes" => return Json.str (removeQuotes (← str j "s"))
   | "strip" => return Json.str (Py.strip (← str j "s"))
   | "fnmatch" => return Json.bool (Glob.fnmatch (← str j "name") (← str j "pat"))
   | "globmatch" =>
